@@ -273,6 +273,26 @@ def handle (st : DState) : List String → P (DState × String)
     | some b => pure (st, replyB (.ok b))
     | none => pure (st, "err\tother:OverflowError")
   | ["prim.hex", b] => do pure (st, replyS (.ok (toHexL (← decBytes b))))
+  | ["prim.hexu", b] => do pure (st, replyS (.ok (toHexU (← decBytes b))))
+  | ["prim.upper", s] => do pure (st, replyS (.ok (upper (← decStr s))))
+  | ["prim.zfill", w, s] => do pure (st, replyS (.ok (zfill (← decNat w) (← decStr s))))
+  | ["prim.ljust", w, f, s] => do pure (st, replyS (.ok (ljust (← decNat w) (← decNat f) (← decStr s))))
+  | ["prim.rjust", w, f, s] => do pure (st, replyS (.ok (rjust (← decNat w) (← decNat f) (← decStr s))))
+  | ["prim.int10", s] => do
+    let x ← decStr s
+    pure (st, if asciiNumeric x && !x.isEmpty then s!"ok\ti:{decVal x}" else "err\tguard")
+  | ["prim.int16", s] => do
+    let x ← decStr s
+    pure (st, if asciiHexchar x && !x.isEmpty then s!"ok\ti:{parseHexNat x}" else "err\tguard")
+  | ["prim.from_bytes", b] => do pure (st, s!"ok\ti:{fromBytesBE (← decBytes b)}")
+  | ["prim.encode_ascii", s] => do
+    match encodeAscii (← decStr s) with
+    | some b => pure (st, replyB (.ok b))
+    | none => pure (st, "err\tother:UnicodeEncodeError")
+  | ["prim.classes", s] => do
+    let x ← decStr s
+    pure (st, s!"ok\t{asciiNumeric x},{asciiAlnum x},{asciiPrintable x},{asciiHexchar x}")
+  | ["prim.xor", a, b] => do pure (st, replyB (.ok (Tools.xor (← decBytes a) (← decBytes b))))
   | toks => .error s!"unknown operation or arity: {toks.headD ""} / {toks.length}"
 
 def handleLine (st : DState) (line : String) : DState × String :=
